@@ -196,7 +196,7 @@ func runC01(c *Cfg) {
 	// one-shot stream payloads (and the other late zoo entries): prep still runs once, every attempt, the fallback and
 	// post see the very value prep returned
 	var rp []*scen.Scenario
-	for _, name := range []string{"reader-bytes-buffer", "reader-bufio", "reader-strings", "map-any-any", "anyslice-holding-map-any-any"} {
+	for _, name := range []string{"reader-bytes-buffer", "reader-bufio", "reader-strings", "map-any-any", "anyslice-holding-map-any-any", "shared-store-pointer", "func-returning-any", "result-slice-with-error"} {
 		zi := zoo.Index(name)
 		for kind := 0; kind < scen.NumScriptedKinds; kind++ {
 			for n := 1; n <= 4; n++ {
@@ -331,6 +331,7 @@ func replaceDots(s string) string {
 func runC02(c *Cfg) {
 	r := c.Rep
 	runSpecial(c, "C02", "same-name-node-types")
+	runSpecial(c, "C02", "rerun-after-stopped-concurrent-run")
 	var cases []*scen.Scenario
 	var sigs []string
 	standaloneProduct(8, func(idx int, sc *scen.Scenario, sig string) {
